@@ -57,7 +57,7 @@ def run_session(sess, wdir, idx):
     kc = sess["kernel"]
     out = {"consumed": [], "files": [], "kid": sess["kid"], "collect": sess["collect"], "abort": sess.get("abort", 0), "traces": sess.get("traces", []), "exc": "ok",
            "ncache": sess.get("ncache", 0), "order": kc["order"], "style": kc.get("style", "tf"), "nc": max(kc["extents"].values()),
-           "expr0": kc["expr"], "ops0": kc["ops"], "zshape": kc.get("zshape", 1), "tiled": 1 if kc.get("tile") else 0, "plus": 1 if kc["expr"].get("plus") else 0,
+           "expr0": kc["expr"], "ops0": kc["ops"], "zshape": kc.get("zshape", 1), "tiled": 1 if kc.get("tile") else 0, "plus": 1 if kc["expr"].get("plus") else 2 if kc["expr"].get("prod") else 0,
            "ufmt": kc.get("ufmt", []), "nofilter": 1 if kc.get("nofilter") else 0, "extents": kc["extents"]}
     prefix = os.path.join(wdir, f"s{idx}")
     proj.VALUE_MAP = proj.VALUE_MAPS.get(kc.get("vmap", ""))
@@ -83,6 +83,10 @@ def _run_session(sess, kc, out, prefix):
                 pass
             if sess["dirty"] == 1:
                 Metrics.endCollect()
+        if kc.get("warm") and kc["expr"].get("plus"):
+            # the output already holds the result (the same assigning kernel ran on it before, collection off): the judged session then assigns values the
+            # references already hold - executed and counted all the same
+            kernel.run_nest(kc, used, expr1, z)
         if sess["collect"]:
             Metrics.beginCollect(prefix)
             out["state_begin"] = metrics_state()
